@@ -113,6 +113,13 @@ class Inbound:
     def stop_using_connection(self):
         self._connection = None
 
+    def stopped(self):
+        # Dilation is over for good (the wormhole is closing): no subchannel
+        # will ever carry anything again, so tell their protocols, exactly
+        # as if the peer had closed each of them
+        for sc in list(self._open_subchannels.values()):
+            sc.remote_close()
+
     # from our Subchannel, or rather from the Protocol above it and sent
     # through the subchannel
 
